@@ -155,8 +155,13 @@ def strip(v, depth=0):
 
 
 class Interp:
-    def __init__(self, facts, order, summaries=None, opaque_callees=(), sym_types=(), max_steps=20000):
+    def __init__(self, facts, order, summaries=None, opaque_callees=(), sym_types=(), max_steps=20000, choices=()):
         self.facts = facts
+        # a branch on a value the fragment does not model (a log-level test, an opaque flag) is a nondeterministic
+        # choice: `choices` replays a prefix, `taken`/`arities` record the run so that `explore` can enumerate all
+        self.choices = list(choices)
+        self.taken = []
+        self.arities = []
         self.order = order          # sym name -> rank
         self.steps = 0
         self.max_steps = max_steps
@@ -165,6 +170,14 @@ class Interp:
         self.sym_types = sym_types              # allowed leaf types for comparisons (regexes)
         self.cmp_types = set()                  # types actually compared (evidence)
         self.cmp_log = []
+
+    def choose(self, arity):
+        """A nondeterministic choice made by a summary (e.g. `the header is present / absent`)."""
+        i = len(self.taken)
+        pick = self.choices[i] if i < len(self.choices) else 0
+        self.taken.append(pick)
+        self.arities.append(arity)
+        return pick
 
     def vidx(self, adt, variant):
         a = self.facts.adts.get(adt)
@@ -208,6 +221,10 @@ class Interp:
             val = op.get("val")
             if op.get("fn"):
                 return ("zst", op["fn"])
+            if ty == "std::cmp::Ordering" and val and "int" in val:
+                i = {255: 0, -1: 0, 0: 1, 1: 2}.get(val["int"])
+                if i is not None:
+                    return V_enum(ty, i, ["Less", "Equal", "Greater"][i], [])
             if ty == "bool" and val and "int" in val:
                 return V_bool(val["int"])
             if val and "int" in val:
@@ -255,6 +272,10 @@ class Interp:
                 bb = t["to"]
             elif k == "switch":
                 d = self.operand(frame, t["discr"])
+                if d is not None and d[0] == "opaque":
+                    outs = [tgt for _, tgt in t["targets"]] + ([t["otherwise"]] if t.get("otherwise") is not None else [])
+                    bb = outs[self.choose(len(outs))]
+                    continue
                 if d is None or d[0] not in ("int", "bool"):
                     raise LeavesFragment("switch on a non-concrete value (%s) at %s bb%d" % (d[0] if d else None, fn.id, bb))
                 dv = int(d[1])
@@ -284,6 +305,11 @@ class Interp:
         if callee is None:
             raise LeavesFragment("indirect call at %s bb%d" % (fn.id, bb))
         m = CMP_RX.match(callee)
+        if m and m.group(1) in ("eq", "ne") and len(argv) == 2:
+            # (in)equality of two field-less enum values (e.g. `ord == Ordering::Less`) is structural
+            ea, eb = self.deref_all(argv[0]), self.deref_all(argv[1])
+            if ea and eb and ea[0] == "enum" and eb[0] == "enum" and ea[1] == eb[1] and not ea[4] and not eb[4]:
+                return V_bool((ea[2] == eb[2]) == (m.group(1) == "eq"))
         if m:
             (ra, na), (rb, nb) = self.sym_rank(argv[0]), self.sym_rank(argv[1])
             ty = fn.local_ty(t["args"][0]["pl"]["l"]) if t["args"][0].get("pl") else "?"
@@ -308,13 +334,20 @@ class Interp:
         if callee in GENERIC_SUMMARIES:
             return GENERIC_SUMMARIES[callee](self, argv, t)
         for rx in self.opaque_rx:
-            if rx.search(callee):
+            if rx.search(callee) or (res and rx.search(res)):
                 return V_opaque(callee)
         raise LeavesFragment("call to %s at %s bb%d leaves the comparison-only fragment" % (callee, fn.id, bb))
 
-    def call_closure(self, clo, arg):
-        """clo: ('closure', def, captures) ; FnOnce/Fn with one argument."""
+    def call_closure(self, clo, *args):
+        """clo: ('closure', def, captures) ; FnOnce/Fn with the given arguments; a constant fn item (`.map(helper)`,
+        `.map_or_else(Self::A, ..)`) is called directly."""
         v = self.deref_all(clo)
+        if v is not None and v[0] == "zst" and v[1] in self.facts.F:
+            return self.call_fn(self.facts.F[v[1]], list(args))
+        if v is not None and v[0] == "zst" and v[1] and len(args) == 1:
+            ctor = {"Some": V_some, "Ok": V_ok, "Err": V_err}.get(v[1].split("::")[-1])
+            if ctor and re.match(r"std::(prelude::v1|option::Option|result::Result)::(Some|Ok|Err)$", v[1]):
+                return ctor(args[0])
         if v is None or v[0] != "closure":
             raise LeavesFragment("call of a non-closure value")
         g = self.facts.F.get(v[1])
@@ -324,7 +357,7 @@ class Interp:
         env = v
         if env_ty.startswith("&"):
             env = V_ref(Cell(v))
-        return self.call_fn(g, [env, arg])
+        return self.call_fn(g, [env] + list(args))
 
     def rvalue(self, fn, frame, rv):
         k = rv["rv"]
@@ -341,6 +374,8 @@ class Interp:
             v = read_path(cell, path)
             if v is None or v[0] != "enum":
                 raise LeavesFragment("discriminant of non-enum %s" % (v[0] if v else None))
+            if v[1] == "std::cmp::Ordering":
+                return V_int([255, 0, 1][v[2]])   # Less = -1 as u8
             return V_int(v[2])
         if k == "agg":
             ops = [self.operand(frame, o) for o in rv["ops"]]
@@ -371,17 +406,38 @@ class Interp:
                 self.cmp_types.add(ty)
                 self.cmp_log.append((rv["op"].lower(), a[1], b[1]))
                 return V_bool({"Eq": x == y, "Ne": x != y, "Lt": x < y, "Le": x <= y, "Gt": x > y, "Ge": x >= y}[rv["op"]])
+            if "sym" not in (a[0], b[0]) and "opaque" in (a[0], b[0]) and rv["op"] in ("Eq", "Ne", "Lt", "Le", "Gt", "Ge"):
+                return V_opaque("unmodelled-comparison")
             raise LeavesFragment("arithmetic on a symbol / unsupported binop %s" % rv["op"])
         if k == "unop" and rv["op"] == "Not":
             a = self.operand(frame, rv["a"])
             if a[0] == "bool":
                 return V_bool(not a[1])
+            if a[0] == "opaque":
+                return a
         if k == "cast":
             v = self.operand(frame, rv["op"])
             if "Unsize" in rv["kind"] or "ReifyFnPointer" in rv["kind"]:
                 return v
             raise LeavesFragment("cast %s" % rv["kind"])
         raise LeavesFragment("unsupported rvalue %s" % k)
+
+
+def explore(run, limit=512):
+    """run(choices) -> (interp, outcome).  Enumerates every resolution of the run's nondeterministic branches;
+    returns the list of outcomes (one per complete choice sequence)."""
+    out = []
+    pending = [[]]
+    while pending:
+        ch = pending.pop()
+        it, res = run(ch)
+        out.append(res)
+        if len(out) > limit:
+            raise LeavesFragment("more than %d nondeterministic paths" % limit)
+        for i in range(len(ch), len(it.taken)):
+            for alt in range(1, it.arities[i]):
+                pending.append(it.taken[:i] + [alt])
+    return out
 
 
 # ---- summaries of std functions whose semantics are structural or order-preserving
@@ -397,6 +453,174 @@ def _s_option_map(interp, argv, t):
     if o[2] == 0:
         return V_none()
     return V_some(interp.call_closure(argv[1], o[4][0]))
+
+
+def _res(v, interp):
+    v = interp.deref_all(v)
+    if v is None or v[0] != "enum" or v[1] != "std::result::Result":
+        raise LeavesFragment("expected a Result, got %s" % (v[0] if v else None))
+    return v
+
+
+def _truth(v, interp):
+    v = interp.deref_all(v)
+    if v is None or v[0] != "bool":
+        raise LeavesFragment("expected a bool")
+    return v[1]
+
+
+# Option / Result combinators are their defining `match` (std's documented semantics)
+def _s_option_map_or(interp, argv, t):
+    o = _opt(argv[0], interp)
+    return argv[1] if o[2] == 0 else interp.call_closure(argv[2], o[4][0])
+
+
+def _s_option_map_or_else(interp, argv, t):
+    o = _opt(argv[0], interp)
+    return interp.call_closure(argv[1]) if o[2] == 0 else interp.call_closure(argv[2], o[4][0])
+
+
+def _s_option_is_some_and(interp, argv, t):
+    o = _opt(argv[0], interp)
+    return V_bool(False) if o[2] == 0 else interp.call_closure(argv[1], o[4][0])
+
+
+def _s_option_is_none_or(interp, argv, t):
+    o = _opt(argv[0], interp)
+    return V_bool(True) if o[2] == 0 else interp.call_closure(argv[1], o[4][0])
+
+
+def _s_option_and_then(interp, argv, t):
+    o = _opt(argv[0], interp)
+    return V_none() if o[2] == 0 else interp.call_closure(argv[1], o[4][0])
+
+
+def _s_option_unwrap_or_else(interp, argv, t):
+    o = _opt(argv[0], interp)
+    return interp.call_closure(argv[1]) if o[2] == 0 else o[4][0]
+
+
+def _s_option_filter(interp, argv, t):
+    o = _opt(argv[0], interp)
+    if o[2] == 0:
+        return V_none()
+    return o if _truth(interp.call_closure(argv[1], V_ref(Cell(o[4][0]))), interp) else V_none()
+
+
+def _s_option_ok_or(interp, argv, t):
+    o = _opt(argv[0], interp)
+    return V_err(argv[1]) if o[2] == 0 else V_ok(o[4][0])
+
+
+def _s_option_ok_or_else(interp, argv, t):
+    o = _opt(argv[0], interp)
+    return V_err(interp.call_closure(argv[1])) if o[2] == 0 else V_ok(o[4][0])
+
+
+def _s_option_or(interp, argv, t):
+    o = _opt(argv[0], interp)
+    return argv[1] if o[2] == 0 else o
+
+
+def _s_option_as_ref(interp, argv, t):
+    o = _opt(argv[0], interp)
+    return V_none() if o[2] == 0 else V_some(V_ref(Cell(o[4][0])))
+
+
+def _s_result_map(interp, argv, t):
+    r = _res(argv[0], interp)
+    return V_ok(interp.call_closure(argv[1], r[4][0])) if r[2] == 0 else r
+
+
+def _s_result_map_err(interp, argv, t):
+    r = _res(argv[0], interp)
+    return r if r[2] == 0 else V_err(interp.call_closure(argv[1], r[4][0]))
+
+
+def _s_result_and_then(interp, argv, t):
+    r = _res(argv[0], interp)
+    return interp.call_closure(argv[1], r[4][0]) if r[2] == 0 else r
+
+
+def _s_result_or_else(interp, argv, t):
+    r = _res(argv[0], interp)
+    return r if r[2] == 0 else interp.call_closure(argv[1], r[4][0])
+
+
+def _s_result_map_or(interp, argv, t):
+    r = _res(argv[0], interp)
+    return interp.call_closure(argv[2], r[4][0]) if r[2] == 0 else argv[1]
+
+
+def _s_result_map_or_else(interp, argv, t):
+    r = _res(argv[0], interp)
+    return interp.call_closure(argv[2], r[4][0]) if r[2] == 0 else interp.call_closure(argv[1], r[4][0])
+
+
+def _s_result_is_ok(interp, argv, t):
+    return V_bool(_res(argv[0], interp)[2] == 0)
+
+
+def _s_result_is_err(interp, argv, t):
+    return V_bool(_res(argv[0], interp)[2] == 1)
+
+
+def _s_result_ok(interp, argv, t):
+    r = _res(argv[0], interp)
+    return V_some(r[4][0]) if r[2] == 0 else V_none()
+
+
+def _s_result_err(interp, argv, t):
+    r = _res(argv[0], interp)
+    return V_some(r[4][0]) if r[2] == 1 else V_none()
+
+
+def _s_result_unwrap_or(interp, argv, t):
+    r = _res(argv[0], interp)
+    return r[4][0] if r[2] == 0 else argv[1]
+
+
+def _s_result_unwrap_or_else(interp, argv, t):
+    r = _res(argv[0], interp)
+    return r[4][0] if r[2] == 0 else interp.call_closure(argv[1], r[4][0])
+
+
+def _s_bool_then(interp, argv, t):
+    return V_some(interp.call_closure(argv[1])) if _truth(argv[0], interp) else V_none()
+
+
+def _s_bool_then_some(interp, argv, t):
+    return V_some(argv[1]) if _truth(argv[0], interp) else V_none()
+
+
+def _ordering(i):
+    return V_enum("std::cmp::Ordering", i, ["Less", "Equal", "Greater"][i], [])
+
+
+def _s_cmp(interp, argv, t):
+    (ra, na), (rb, nb) = interp.sym_rank(argv[0]), interp.sym_rank(argv[1])
+    interp.cmp_log.append(("cmp", na, nb))
+    return _ordering(0 if ra < rb else (1 if ra == rb else 2))
+
+
+def _s_partial_cmp(interp, argv, t):
+    return V_some(_s_cmp(interp, argv, t))
+
+
+def _ord_pred(allowed):
+    def f(interp, argv, t):
+        v = interp.deref_all(argv[0])
+        if v is None or v[0] != "enum" or v[1] != "std::cmp::Ordering":
+            raise LeavesFragment("expected an Ordering")
+        return V_bool(v[2] in allowed)
+    return f
+
+
+def _s_ord_reverse(interp, argv, t):
+    v = interp.deref_all(argv[0])
+    if v is None or v[0] != "enum" or v[1] != "std::cmp::Ordering":
+        raise LeavesFragment("expected an Ordering")
+    return _ordering(2 - v[2])
 
 
 def _s_unwrap_or(interp, argv, t):
@@ -459,6 +683,40 @@ def _s_from_residual(interp, argv, t):
 GENERIC_SUMMARIES = {
     "std::option::Option::<T>::map": _s_option_map,
     "std::option::Option::<T>::unwrap_or": _s_unwrap_or,
+    "std::option::Option::<T>::map_or": _s_option_map_or,
+    "std::option::Option::<T>::map_or_else": _s_option_map_or_else,
+    "std::option::Option::<T>::is_some_and": _s_option_is_some_and,
+    "std::option::Option::<T>::is_none_or": _s_option_is_none_or,
+    "std::option::Option::<T>::and_then": _s_option_and_then,
+    "std::option::Option::<T>::unwrap_or_else": _s_option_unwrap_or_else,
+    "std::option::Option::<T>::filter": _s_option_filter,
+    "std::option::Option::<T>::ok_or": _s_option_ok_or,
+    "std::option::Option::<T>::ok_or_else": _s_option_ok_or_else,
+    "std::option::Option::<T>::or": _s_option_or,
+    "std::option::Option::<T>::as_ref": _s_option_as_ref,
+    "std::result::Result::<T, E>::map": _s_result_map,
+    "std::result::Result::<T, E>::map_err": _s_result_map_err,
+    "std::result::Result::<T, E>::and_then": _s_result_and_then,
+    "std::result::Result::<T, E>::or_else": _s_result_or_else,
+    "std::result::Result::<T, E>::map_or": _s_result_map_or,
+    "std::result::Result::<T, E>::map_or_else": _s_result_map_or_else,
+    "std::result::Result::<T, E>::is_ok": _s_result_is_ok,
+    "std::result::Result::<T, E>::is_err": _s_result_is_err,
+    "std::result::Result::<T, E>::ok": _s_result_ok,
+    "std::result::Result::<T, E>::err": _s_result_err,
+    "std::result::Result::<T, E>::unwrap_or": _s_result_unwrap_or,
+    "std::result::Result::<T, E>::unwrap_or_else": _s_result_unwrap_or_else,
+    "std::cmp::Ord::cmp": _s_cmp,
+    "std::cmp::PartialOrd::partial_cmp": _s_partial_cmp,
+    "std::cmp::Ordering::is_lt": _ord_pred((0,)),
+    "std::cmp::Ordering::is_le": _ord_pred((0, 1)),
+    "std::cmp::Ordering::is_gt": _ord_pred((2,)),
+    "std::cmp::Ordering::is_ge": _ord_pred((1, 2)),
+    "std::cmp::Ordering::is_eq": _ord_pred((1,)),
+    "std::cmp::Ordering::is_ne": _ord_pred((0, 2)),
+    "std::cmp::Ordering::reverse": _s_ord_reverse,
+    "std::bool::<impl bool>::then": _s_bool_then,
+    "std::bool::<impl bool>::then_some": _s_bool_then_some,
     "std::option::Option::<T>::is_some": _s_is_some,
     "std::option::Option::<T>::is_none": _s_is_none,
     "std::cmp::min": _s_min,
